@@ -68,6 +68,16 @@ func init() {
 		e["ok"] = err1 == nil && err2 == nil
 		e["nilout"], e["out"] = B(nilout), B(out)
 		e["preafter"] = B(backing[:len(prefix)])
+		// chained use: the result of one call is the buffer of the next
+		c1, _ := call(nil)
+		c2, _ := call(c1)
+		c3, _ := call(c2)
+		e["chain"] = B(c3)
+		// buffer reuse: the returned slice is truncated, refilled with a longer prefix and used again
+		p2 := append(append(out[:0], prefix...), "##reuse##"...)
+		want2 := append([]byte(nil), p2...)
+		out2, _ := call(p2)
+		e["reusepre"], e["reuseout"] = B(want2), B(out2)
 		return e
 	}
 
